@@ -246,14 +246,19 @@ func oracle(c *Case) error {
 				SecureRandom: sr,
 			}
 			seen := map[string]int{}
-			for i := 0; i < 24; i++ {
+			// one byte of entropy repeats among 24 draws only two times in three: 72 draws leave a chance of 5 in 100000
+			reps := 24
+			if c.SecureRandomLen == 1 {
+				reps = 72
+			}
+			for i := 0; i < reps; i++ {
 				res, err := telegram.GetInputCheckPassword(c.Password, ap)
 				if err != nil {
 					return fmt.Errorf("INFRA: %v", err)
 				}
 				a := string(res.(*telegram.InputCheckPasswordSRPObj).A)
 				if j, dup := seen[a]; dup {
-					return fmt.Errorf("SRP ephemeral repeats: answers %d and %d of 24 to the same parameters (secure_random of %d bytes) carry the same A = g^a - a is not 2048 bits of the OS source", j, i, c.SecureRandomLen)
+					return fmt.Errorf("SRP ephemeral repeats: answers %d and %d of the draws for the same parameters (secure_random of %d bytes) carry the same A = g^a - a is not 2048 bits of the OS source", j, i, c.SecureRandomLen)
 				}
 				seen[a] = i
 			}
@@ -272,6 +277,35 @@ func oracle(c *Case) error {
 			for k, name := range []string{"nonce", "new_nonce", "g_b (the DH exponent b)"} {
 				if bytes.Equal(obs[0][k], obs[1][k]) {
 					return fmt.Errorf("%s is reproducible: two key exchanges after seeding the process-global math/rand with %d sent the same value %s…", name, c.Seed, hex.EncodeToString(obs[0][k][:8]))
+				}
+			}
+		case "retry-exponents":
+			// the server asks for another exponent (dh_gen_retry, as the protocol allows) once or twice: a client that
+			// obeys draws a fresh b from the OS source each time; one that gives up sends nothing more
+			res, err := scen.RunChild(c.Scenario, 120*time.Second)
+			if err != nil || res.Died || len(res.HS) == 0 || len(res.HS[0].GBs) == 0 {
+				return fmt.Errorf("INFRA: the exchange did not get as far as set_client_DH_params: %v %v", err, res)
+			}
+			gbs := res.HS[0].GBs
+			run.Class(fmt.Sprintf("retry-exponents:g_b-values-sent=%d", min(len(gbs), 3)), 1)
+			g := big.NewInt(int64(c.Scenario.HS.G))
+			for i := 0; i < len(gbs); i++ {
+				for j := i + 1; j < len(gbs); j++ {
+					a, b := new(big.Int).SetBytes(gbs[i]), new(big.Int).SetBytes(gbs[j])
+					inv := new(big.Int).ModInverse(a, ref.DHPrime)
+					if inv == nil {
+						continue
+					}
+					ratio := new(big.Int).Mod(new(big.Int).Mul(b, inv), ref.DHPrime) // g^(b_j - b_i)
+					pw, ginv := big.NewInt(1), new(big.Int).ModInverse(g, ref.DHPrime)
+					nw := big.NewInt(1)
+					for k := 0; k <= 4096; k++ {
+						if ratio.Cmp(pw) == 0 || ratio.Cmp(nw) == 0 {
+							return fmt.Errorf("DH exponent after dh_gen_retry is derived from the previous one: g_b #%d = g_b #%d * g^(+-%d) - it was not read from the OS source", j+1, i+1, k)
+						}
+						pw.Mod(pw.Mul(pw, g), ref.DHPrime)
+						nw.Mod(nw.Mul(nw, ginv), ref.DHPrime)
+					}
 				}
 			}
 		case "clock-nonce":
@@ -382,12 +416,12 @@ func TestC19(t *testing.T) {
 	t.Run("each-kind-once", func(t *testing.T) {
 		// one case of every kind that the generated phase only samples, so that no run misses one
 		nsh := hx.NShards()
-		for i, kind := range []string{"reseed-nonces", "clock-nonce", "clock-exponent", "reseed-srp", "reseed-exchange"} {
+		for i, kind := range []string{"reseed-nonces", "clock-nonce", "clock-exponent", "reseed-srp", "reseed-exchange", "retry-exponents"} {
 			if i%nsh != run.Shard%nsh {
 				continue
 			}
 			c := &Case{Kind: kind, Seed: int64(run.Seed)*31 + int64(i), G: []int32{3, 4, 7}[i%3], Password: "each kind once"}
-			if kind == "reseed-exchange" {
+			if kind == "reseed-exchange" || kind == "retry-exponents" {
 				sc, err := scen.BuildHandshake(&detSource{seed: run.Seed*53 + uint64(i)}, keys, scen.Corner{}, false)
 				if err != nil {
 					t.Fatalf("INFRA: %v", err)
@@ -396,6 +430,10 @@ func TestC19(t *testing.T) {
 				sc.Probe = false
 				seed := c.Seed
 				sc.ReseedGlobal = &seed
+				if kind == "retry-exponents" {
+					sc.ReseedGlobal = nil
+					sc.HS.RetryFirst = 2
+				}
 				c.Scenario = sc
 			}
 			run.Case(true, evid.Hash("each-kind", kind, c.Seed), "kind:"+kind)
@@ -530,7 +568,7 @@ func TestC19(t *testing.T) {
 	t.Run("generated", func(t *testing.T) {
 		rapid.Check(t, func(t *rapid.T) {
 			c := &Case{Seed: rapid.OneOf(rapid.SampledFrom([]int64{0, 1, 42, -1, 1 << 40}), rapid.Int64()).Draw(t, "seed"), G: rapid.SampledFrom([]int32{3, 4, 7}).Draw(t, "g")}
-			c.Kind = rapid.SampledFrom([]string{"reseed-nonces", "reseed-nonces", "clock-nonce", "clock-exponent", "clock-exponent", "reseed-srp", "reseed-exchange", "reseed-exponent-params", "reseed-exponent-params", "srp-distinct", "stalled-os-source"}).Draw(t, "kind")
+			c.Kind = rapid.SampledFrom([]string{"reseed-nonces", "reseed-nonces", "clock-nonce", "clock-exponent", "clock-exponent", "reseed-srp", "reseed-exchange", "reseed-exponent-params", "reseed-exponent-params", "srp-distinct", "stalled-os-source", "retry-exponents"}).Draw(t, "kind")
 			switch c.Kind {
 			case "stalled-os-source":
 				c.StallMs = rapid.SampledFrom([]int{1, 50, 300, 1100}).Draw(t, "stall")
@@ -566,6 +604,15 @@ func TestC19(t *testing.T) {
 				sc.Probe = false
 				seed := c.Seed
 				sc.ReseedGlobal = &seed
+				c.Scenario = sc
+			case "retry-exponents":
+				sc, err := scen.BuildHandshake(rapidSource{t}, keys, scen.Corner{}, false)
+				if err != nil {
+					t.Fatalf("INFRA: %v", err)
+				}
+				sc.HS.P, sc.HS.Q = 1000003, 1000033
+				sc.Probe = false
+				sc.HS.RetryFirst = rapid.IntRange(1, 3).Draw(t, "retries")
 				c.Scenario = sc
 			}
 			run.Case(true, evid.Hash(c.Kind, c.Seed, c.G, c.Password, c.Prime, c.GA, c.SecureRandomLen, c.StallMs), "kind:"+c.Kind)
